@@ -320,6 +320,29 @@ fn cols_line(line: &str) -> String {
     })
 }
 
+/// std::path::Path on raw bytes: "<rooted 0/1> <components '/'-joined, hex> | <parent: none or rooted + components>"
+fn pathparts_line(line: &str) -> String {
+    use std::os::unix::ffi::OsStrExt;
+    let b = unhex(line);
+    guarded(move || {
+        let p = std::path::Path::new(std::ffi::OsStr::from_bytes(&b));
+        let show = |p: &std::path::Path| {
+            let mut comps: Vec<Vec<u8>> = Vec::new();
+            for c in p.components() {
+                match c {
+                    std::path::Component::RootDir => {}
+                    other => comps.push(other.as_os_str().as_bytes().to_vec()),
+                }
+            }
+            format!("{} {}", p.has_root() as u8, hex(&comps.join(&b'/')))
+        };
+        match p.parent() {
+            Some(q) => format!("{} | {}", show(p), show(q)),
+            None => format!("{} | none", show(p)),
+        }
+    })
+}
+
 /// run.rs parse_args on a real command line: this executable is started again (argv[0] and the arguments as given, cwd = a
 /// scratch directory with the subdirectories d1, d1/d2 and "with space") and reports what parse_args returned.
 /// <argv0-hex> [arg-hex ...]
@@ -728,6 +751,7 @@ fn main() {
         "dumb" => dumb_line,
         "fs" => fs_line,
         "cols" => cols_line,
+        "pathparts" => pathparts_line,
         "dedup" => dedup_line,
         "hist" => hist::hist_line,
         "db" => db_line,
